@@ -27,6 +27,8 @@ for id in $IDS; do
     mode=$(/verif/tools/apply_seeded.sh $S/repo /verif/seeded/$id/patch.diff $prop)
     if [ "$mode" = FAIL ]; then echo "$id: PATCH-DOES-NOT-APPLY"; missed=1; continue; fi
     extra=""; [ "$mode" = BASE ] && extra="VERIF_C08_NO_FORK=1"
+    # C08-f1 is the change that led to defect D7: on its base commit the fork scenario is the point
+    [ "$id" = C08-f1 ] && extra=""
     start=$(date +%s)
     env $extra VERIF_ROOT=$S/verif $S/verif/check $prop $TIER > $S/$id.out 2>&1; rc=$?
     end=$(date +%s)
